@@ -168,6 +168,15 @@ impl XDiscreteDistribution {
         })
     }
 
+    /// statrs draws a binomial by running its trials, and a hypergeometric by making its draws, one at a time
+    fn steps_per_sample(&self) -> u64 {
+        match self {
+            Self::Binomial(i) => i.n(),
+            Self::Hypergeometric(i) => i.draws(),
+            _ => 1,
+        }
+    }
+
     fn sample(&self, n: usize, rng: &mut impl RngCore) -> Vec<LazyBigint> {
         match self {
             Self::Binomial(i) => i
@@ -589,6 +598,12 @@ pub(crate) fn add_discdist_sample<W, R: SeedableRng + RngCore, T>(
             rt.limits
                 .check_permission(&builtin_permissions::RANDOM)?;
             rt.can_allocate(i1.saturating_mul(size_of::<usize>()))?;
+            if let Some(maximum_search) = rt.limits.maximum_search {
+                // the sampling loops cannot be interrupted, so they are charged to the search budget up front
+                if d0.steps_per_sample().saturating_mul(i1 as u64) > maximum_search as u64 {
+                    return Err(crate::runtime_violation::RuntimeViolation::MaximumSearch);
+                }
+            }
             let nums = d0.sample(i1, rt.stats.borrow_mut().get_rng());
             let nums = nums.into_iter().map(|v| ManagedXValue::new(XValue::Int(v), rt.clone())).collect::<Result<Vec<_>, _>>()?;
             let ret = XSequence::array(nums);
